@@ -338,7 +338,8 @@ def _pool_worker(chunk):
 
 
 def load_known_findings(prop_id):
-    p = os.path.join(VERIF, "known_findings.json")
+    """known_findings/<Cxx>.json: committed, never written at run time."""
+    p = os.path.join(VERIF, "known_findings", prop_id + ".json")
     if not os.path.exists(p):
         return []
     return [e for e in json.load(open(p)) if e.get("property") == prop_id]
